@@ -187,7 +187,11 @@ func Apply(p *bluemonday.Policy, c Call) {
 			Globally() *bluemonday.Policy
 		}
 		if c.Op == "AllowNoAttrs" {
-			b = p.AllowNoAttrs()
+			nb := p.AllowNoAttrs()
+			if c.Re != "" {
+				nb = nb.Matching(Regexp(c.Re)) // no attribute names: the value pattern has nothing to apply to
+			}
+			b = nb
 		} else {
 			ab := p.AllowAttrs(c.Names...)
 			if c.NoAttrs && c.NoAttrsFirst {
